@@ -300,6 +300,23 @@ fn c07_ol() {
     println!("NONE {}", cases);
 }
 
+
+/// C01: tables with huge / zero colspans
+fn c01_colspan() {
+    let spans = ["0", "1", "2", "9223372036854775807", "18446744073709551615", "1000000000"];
+    let mut cases = 0u64;
+    for a in spans { for b in spans { for c in spans {
+        let html = format!("<table><tr><td colspan={}>x<td colspan={}>y<tr><td colspan={}>z<td>w</table>", a, b, c);
+        cases += 1;
+        let h = html.clone();
+        match panic::catch_unwind(move || config::plain().string_from_read(h.as_bytes(), 20)) {
+            Err(_) => found("c01_colspan", &format!("width=20 html={}", html), "panic"),
+            Ok(_) => {}
+        }
+    }}}
+    println!("NONE {}", cases);
+}
+
 fn main() {
     let mode = std::env::args().nth(1).unwrap_or_default();
     panic::set_hook(Box::new(|_| {}));
@@ -307,6 +324,7 @@ fn main() {
         "c19" => c19(),
         "c19_inherit" => c19_inherit(),
         "dbg" => dbg(),
+        "c01_colspan" => c01_colspan(),
         "c07_ol" => c07_ol(),
         "c16_prefix" => c16_prefix(),
         "c20_nth" => c20_nth(),
